@@ -617,6 +617,14 @@ class Gen:
                 f['deprecated'] = True; s.features.add('deprecated'); f.pop('required', None)
             f['attrs'] = uattrs()
             t.fields.append(f)
+        # siblings whose names sort between a union field `u` and its hidden companion `u_type` (and just around it): the binary
+        # schema's fields vector must stay sorted with the synthesised `<u>_type` entries in place
+        for f in [x for x in t.fields if x['type'][0] == 'union' or (x['type'][0] == 'vec' and x['type'][1][0] == 'union')]:
+            if r.random() < 0.5:
+                for suf in r.sample(['2', 'A', 'Z', '0', '_id', '_a', '_typ', '_typf', '_u', 'x', '_Type'], r.randint(1, 3)):
+                    g = {'name': f['name'] + suf, 'type': ('scalar', r.choice(['int', 'ubyte', 'long'])), 'attrs': []}
+                    if all(x['name'] != g['name'] for x in t.fields):
+                        t.fields.insert(r.randrange(len(t.fields) + 1), g); s.features.add('union_sibling_names')
         if r.random() < 0.25: t.original_order = True; s.features.add('original_order')
         # explicit ids: a random permutation of the slots
         if t.fields and r.random() < 0.4:
